@@ -682,8 +682,8 @@ pub fn ref_view(ctx: &ViewCtx, vs: &[Val], o: u32) -> Option<(RefPoint, Vec<((f6
             color = Some((i, i, i));
         }
     }
-    if o & 1 != 0 && cart.0 == 0 {
-        let t = ctx.tr.unwrap_or([1f64.to_bits(), 0, 0, 0, 0, 0, 0]);
+    // the pose is applied to valid Cartesian coordinates — a cloud without a pose has none to apply
+    if let (true, 0, Some(t)) = (o & 1 != 0, cart.0, ctx.tr) {
         let g = |i: usize| f64::from_bits(t[i]);
         let (w, x, y, z) = (g(0), g(1), g(2), g(3));
         // rotation matrix of the (unit) quaternion, then translation
